@@ -436,3 +436,56 @@ def a10(ctx):
     if not obs:
         raise AnalysisError("apply_prop_filter: apply_text_match call not found")
     return obs
+
+
+@rule("C12", "A11", floor=3, kind="S",
+      desc="XML elements are not tested for truth: in the CardDAV filter functions no test is the result of "
+           "`.find()` / an element itself (an ElementTree element without children is falsy: `if el.find(tag):` never sees "
+           "an empty <is-not-defined/>)")
+def a11(ctx):
+    obs = []
+    for q in (CARD + ".apply_param_filter", CARD + ".apply_prop_filter", CARD + ".apply_filter", CARD + ".apply_text_match"):
+        f = ctx.func(q)
+        cfg = ctx.cfg(f)
+        du = DefUse(cfg)
+        bad = []
+        for n in cfg.nodes:
+            if n.kind != "test":
+                continue
+            t = n.ast.operand if isinstance(n.ast, ast.UnaryOp) and isinstance(n.ast.op, ast.Not) else n.ast
+            cands = [t]
+            if isinstance(t, ast.Name):
+                cands = [o.leaf for o in origins(du, n, t) if o.kind == "expr" and o.leaf is not None and not o.path]
+            for x in cands:
+                if isinstance(x, ast.Call) and isinstance(x.func, ast.Attribute) and x.func.attr in ("find", "findall", "iterfind"):
+                    bad.append(n)
+        obs.append(ctx.ob(not bad, f.qualname, where(f, bad[0]) if bad else f.where, "no element is tested for truth", "presence tests use `is not None` / len()",
+                          "`%s` tests an ElementTree element for truth: an element without children and text is falsy, so an empty "
+                          "<is-not-defined/> (or any childless element) is treated as missing" % (src(bad[0].ast)[:60] if bad else "")))
+    return obs
+
+
+@rule("C12", "A12", floor=1, kind="S",
+      desc="a card created by POST is listed as a card: the content type handed to create_member is the bare media type "
+           "(parse_type(...)[0]) - with parameters still attached no extension is guessed, the item is stored without "
+           "`.vcf` and no addressbook-query ever returns it")
+def a12(ctx):
+    f = ctx.func("xandikos.webdav.PostMethod.handle")
+    cfg = ctx.cfg(f)
+    du = DefUse(cfg)
+    obs = []
+    from .common import call_arg
+    for n in cfg.stmt_nodes():
+        for c in n.calls():
+            if isinstance(c.func, ast.Attribute) and c.func.attr == "create_member":
+                a = call_arg(ctx, f, c, "content_type", 2)
+                if a is None:
+                    raise AnalysisError("PostMethod.handle: content type argument of create_member not found")
+                os_ = origins(du, n, a)
+                ok = bool(os_) and all(o.kind == "expr" and isinstance(o.leaf, ast.Call) and tuple(o.path) == (0,)
+                                       and (dotted(o.leaf.func) or "").split(".")[-1] == "parse_type" for o in os_)
+                obs.append(ctx.ob(ok, f.qualname, where(f, n), "create_member gets the bare media type", "content_type <- parse_type(request.content_type)[0]",
+                                  "POST hands `%s` to create_member as content type: media-type parameters (`; charset=utf-8`) are still attached" % src(a)))
+    if not obs:
+        raise AnalysisError("PostMethod.handle: create_member call not found")
+    return obs
